@@ -9,7 +9,7 @@ use mc::runner::{Event, PEvent};
 fn st(op: Op) -> Stmt { Stmt { guard: None, op } }
 fn sg(g: u8, op: Op) -> Stmt { Stmt { guard: Some(g), op } }
 fn cfg(prop: Prop, depth: usize) -> HistCfg {
-  HistCfg { prop, max_roots: 2, bottom_up: true, bu_then: true, bu_pre: true, bu_over_report: true, set_fail: false, crashes: 2, depth,
+  HistCfg { prop, max_roots: 2, bottom_up: true, bu_then: true, bu_pre: true, bu_over_report: true, bu_twice: true, set_fail: false, crashes: 2, depth,
     state_cap: 0, probe: prop == Prop::C03, scope_in_key: true, wall_cap: 60.0, collect_digests: false, find_path_hash: None }
 }
 fn td(roots: &[u8]) -> PEvent { PEvent::plain(Event::TopDown(roots.to_vec())) }
@@ -35,7 +35,7 @@ fn d2_validation_follows_creation_order() {
 #[test]
 fn f1_witness_still_carries_its_key() {
   let p = Prog { n_res: 1, bodies: vec![vec![st(Op::Req(1, OC::Equals))], vec![st(Op::Read(0, RC::Exact))]] };
-  let path = vec![set(0, Some(0)), td(&[0]), set(0, Some(1)), td(&[1]), PEvent::plain(Event::BottomUp { pre: vec![], reported: vec![0], then: vec![] })];
+  let path = vec![set(0, Some(0)), td(&[0]), set(0, Some(1)), td(&[1]), PEvent::plain(Event::BottomUp { pre: vec![], reported: vec![0], then: vec![], builds: 1 })];
   let j = judge_path(&p, classify(&p), &cfg(Prop::C03, 5), &path, 0);
   assert!(!j.findings.is_empty());
   assert!(j.findings.iter().all(|f| f.key == "C03/stale-before-bottom-up"), "{:?}", j.findings);
@@ -53,7 +53,7 @@ fn f3_overlap_witness_still_carries_its_key() {
 #[test]
 fn clean_chain_raises_nothing_under_every_history_property() {
   let p = Prog { n_res: 1, bodies: vec![vec![st(Op::Req(1, OC::Equals)), st(Op::Read(0, RC::Exact))], vec![st(Op::Write(0, Src::One, RC::Exact))]] };
-  let path = vec![td(&[0]), set(0, Some(0)), td(&[0]), PEvent::plain(Event::BottomUp { pre: vec![], reported: vec![], then: vec![0] })];
+  let path = vec![td(&[0]), set(0, Some(0)), td(&[0]), PEvent::plain(Event::BottomUp { pre: vec![], reported: vec![], then: vec![0], builds: 1 })];
   for prop in [Prop::C01, Prop::C02, Prop::C03, Prop::C04, Prop::C05, Prop::C06, Prop::C07, Prop::C08, Prop::C09, Prop::C17, Prop::C18, Prop::C19, Prop::C20] {
     let j = judge_path(&p, classify(&p), &cfg(prop, 4), &path, 0);
     assert!(j.findings.is_empty(), "{:?}: {:?}", prop, j.findings);
